@@ -138,7 +138,8 @@ func classifyMapRange(pkg *packages.Package, fd *ast.FuncDecl, rs *ast.RangeStmt
 		}
 		return nil
 	}
-	appended := map[types.Object]token.Pos{} // slices appended to in the body
+	appended := map[types.Object]token.Pos{}            // slices appended to in the body
+	fieldAppended := map[types.Object]map[string]bool{} // local object → its slice fields appended to in the body
 	var problem string
 	var problemPos token.Pos
 	foldSelect := false
@@ -239,12 +240,24 @@ func classifyMapRange(pkg *packages.Package, fd *ast.FuncDecl, rs *ast.RangeStmt
 					if x.Tok != token.ASSIGN {
 						continue
 					}
+					// a field of an object made inside the loop body (substituted := *cp; substituted.Type = …)
+					if root, ok := ast.Unparen(t.X).(*ast.Ident); ok && isLocalToLoop(objOf(root)) {
+						continue
+					}
 					rhs := x.Rhs[0]
 					if i < len(x.Rhs) {
 						rhs = x.Rhs[i]
 					}
 					if c, ok := ast.Unparen(rhs).(*ast.CallExpr); ok {
 						if id, ok := ast.Unparen(c.Fun).(*ast.Ident); ok && id.Name == "append" {
+							// s.names = append(s.names, k): a field of a local sorter object — judged after the loop
+							if holder := objOf(t.X); holder != nil && holder.Pos() >= fd.Pos() && holder.Pos() < fd.End() && len(c.Args) > 0 && exprStr(ast.Unparen(c.Args[0])) == exprStr(t) {
+								if fieldAppended[holder] == nil {
+									fieldAppended[holder] = map[string]bool{}
+								}
+								fieldAppended[holder][t.Sel.Name] = true
+								continue
+							}
 							flag(x.Pos(), "appends to a field in map order")
 							continue
 						}
@@ -355,6 +368,62 @@ func classifyMapRange(pkg *packages.Package, fd *ast.FuncDecl, rs *ast.RangeStmt
 		_ = problemPos
 		return "bad", problem
 	}
+	// parallel slices inside a local sorter: sort.Sort(s) after the loop, and the type's Swap moves every one of them
+	for holder, fields := range fieldAppended {
+		sortedObj := false
+		ast.Inspect(fd.Body, func(nd ast.Node) bool {
+			c, ok := nd.(*ast.CallExpr)
+			if !ok || c.Pos() < rs.End() || len(c.Args) != 1 {
+				return true
+			}
+			if cal, ok := calleeOf(info, c).(*types.Func); ok && cal.Pkg() != nil && cal.Pkg().Path() == "sort" && (cal.Name() == "Sort" || cal.Name() == "Stable") {
+				a := ast.Unparen(c.Args[0])
+				if u, ok := a.(*ast.UnaryExpr); ok && u.Op == token.AND {
+					a = ast.Unparen(u.X)
+				}
+				if objOf(a) == holder {
+					sortedObj = true
+				}
+			}
+			return true
+		})
+		if !sortedObj {
+			return "bad", fmt.Sprintf("appends to fields of %s in map order and %s is not sorted afterwards", holder.Name(), holder.Name())
+		}
+		nt := namedOf(holder.Type())
+		var swap *ast.FuncDecl
+		if nt != nil {
+			for _, md := range funcDecls(pkg) {
+				if md.Name.Name == "Swap" && md.Recv != nil && len(md.Recv.List) == 1 && namedOf(info.TypeOf(md.Recv.List[0].Type)) != nil && namedOf(info.TypeOf(md.Recv.List[0].Type)).Obj() == nt.Obj() {
+					swap = md
+				}
+			}
+		}
+		if swap == nil || swap.Body == nil {
+			return "bad", fmt.Sprintf("appends to fields of %s in map order; its Swap method was not found", holder.Name())
+		}
+		for f := range fields {
+			moved := false
+			ast.Inspect(swap.Body, func(nd ast.Node) bool {
+				if as, ok := nd.(*ast.AssignStmt); ok {
+					for _, l := range as.Lhs {
+						if ix, ok := ast.Unparen(l).(*ast.IndexExpr); ok {
+							if se, ok := ast.Unparen(ix.X).(*ast.SelectorExpr); ok && se.Sel.Name == f {
+								moved = true
+							}
+						}
+					}
+				}
+				return true
+			})
+			if !moved {
+				return "bad", fmt.Sprintf("field %s of %s is filled in map order and the sorter's Swap does not move it: the values stay in map order while the keys are sorted", f, holder.Name())
+			}
+		}
+	}
+	if len(fieldAppended) > 0 && len(appended) == 0 && problem == "" {
+		return "ok", "collects into parallel slices of a local sorter that is sorted as a whole (its Swap moves every one of them)"
+	}
 	if foldSelect && len(appended) == 0 {
 		return "fold", "selects the entry whose key equals a name up to case (strings.EqualFold on the key): one entry at most while the registry's names are unique up to case"
 	}
@@ -416,6 +485,7 @@ func globalsCensus(r *Run, scopes []string, format string, discharge ...func(pkg
 		}
 		info := pkg.TypesInfo
 		written := map[*types.Var]*gw{}
+		onceWritten := map[*types.Var]bool{}
 		rootVar := func(e ast.Expr) *types.Var {
 			for {
 				switch x := ast.Unparen(e).(type) {
@@ -448,7 +518,34 @@ func globalsCensus(r *Run, scopes []string, format string, discharge ...func(pkg
 				continue
 			}
 			fk := funcKey(pkg, fd)
+			// closures handed to a package-level sync.Once: what they write is written once per process, before
+			// any reader gets past the same Once — a table built on first use, not state that changes between VMs
+			var onceBodies [][2]token.Pos
+			ast.Inspect(fd.Body, func(nd ast.Node) bool {
+				c, ok := nd.(*ast.CallExpr)
+				if !ok || len(c.Args) != 1 {
+					return true
+				}
+				se, ok := ast.Unparen(c.Fun).(*ast.SelectorExpr)
+				if !ok || se.Sel.Name != "Do" {
+					return true
+				}
+				if v := rootVar(se.X); v != nil && v.Parent() == pkg.Types.Scope() && isNamed(v.Type(), "sync", "Once") {
+					if lit, ok := ast.Unparen(c.Args[0]).(*ast.FuncLit); ok {
+						onceBodies = append(onceBodies, [2]token.Pos{lit.Pos(), lit.End()})
+					}
+				}
+				return true
+			})
 			mark := func(e ast.Expr, p token.Pos) {
+				for _, ob := range onceBodies {
+					if p >= ob[0] && p < ob[1] {
+						if v := rootVar(e); v != nil && v.Pkg() == pkg.Types {
+							onceWritten[v] = true
+						}
+						return
+					}
+				}
 				if v := rootVar(e); v != nil && v.Pkg() == pkg.Types {
 					g := written[v]
 					if g == nil {
@@ -588,6 +685,16 @@ func globalsCensus(r *Run, scopes []string, format string, discharge ...func(pkg
 				continue
 			}
 			r.bad(key, g.pos, fmt.Sprintf(format, v.Name(), types.TypeString(v.Type(), types.RelativeTo(pkg.Types)), strings.Join(fns, ", ")))
+		}
+		var once []*types.Var
+		for v := range onceWritten {
+			if written[v] == nil {
+				once = append(once, v)
+			}
+		}
+		sortVars(once)
+		for _, v := range once {
+			r.ok(rel+"."+v.Name(), v.Pos(), "written only inside a closure handed to a package-level sync.Once: built once per process on first use")
 		}
 	}
 }
